@@ -194,6 +194,17 @@ func (t *Tokenizer) tokenizeBuffer(buf []byte, last bool) {
 			}
 			off += i
 			continue
+		case cskipNewline:
+			t.line++
+			t.noff = off
+			for i, b = range buf[off+1:] {
+				if spaceMap[b] != skipChar {
+					break
+				}
+			}
+			off += i
+			t.mode = ccommentMap
+			continue
 		case tokenStart:
 			start := off
 			for i, b = range buf[off:] {
@@ -216,6 +227,9 @@ func (t *Tokenizer) tokenizeBuffer(buf []byte, last bool) {
 			t.mode = valueMap
 			continue
 		case skipChar: // skip and continue
+			continue
+		case cskipChar: // skip and back to ccomment
+			t.mode = ccommentMap
 			continue
 		case openObject:
 			if 256 < len(t.mode) {
@@ -468,6 +482,11 @@ func (t *Tokenizer) tokenizeBuffer(buf []byte, last bool) {
 			t.mode = commentMap
 		case commentEnd:
 			t.mode = valueMap
+			continue
+		case ccommentStart:
+			t.mode = ccommentMap
+		case ccommentEnd:
+			t.mode = ccommentEndMap
 		case charErr:
 			t.byteError(off, t.mode, b)
 		}
